@@ -5,4 +5,4 @@ done
 unset _d
 export GOTOOLCHAIN=local GOFLAGS=-mod=mod GOPROXY=off GONOSUMDB='*' GONOSUMCHECK=1 GOFLAGS=-mod=mod
 export CARGO_NET_OFFLINE=true PIP_NO_INDEX=1
-export VERIF_ROOT=/verif
+export VERIF_ROOT="${VERIF_ROOT:-$(cd "$(dirname "${BASH_SOURCE[0]}")" && pwd)}"
